@@ -111,8 +111,9 @@ def key_of(r, spec_bad, code=0):
         return "c11:proof:%s:%s" % (cls, suffix)
     if k == "seq":
         d = code // 4  # detail of check_seq: 1 state, 2 reload, 4 proofs, 8 right witnesses, 16 failing proofs are stale-index hits
-        if spec_bad and d == 4 + 16 and not r.get("panic"):
-            # ONLY proofs fail and every failing proof resolved a present value to a position holding another value
+        if spec_bad and code % 4 == 2 and d == 4 + 16 and not r.get("panic"):
+            # the MODEL AGREES with Go on the whole case (code % 4 == 2: oracle violated, no model disagreement), ONLY proofs
+            # fail and every failing proof resolved a present value to its last-write position, since overwritten
             return "c11:seq:stale-hash-index:spec"
         parts = [n for b, n in ((1, "state"), (2, "reload"), (4, "proofs"), (8, "right-witness")) if d & b]
         gen = r.get("gen")
@@ -134,7 +135,20 @@ def balance(rs, cost, shard):
     return out
 
 
-def evaluate(ck, recs):
+# per-kind floors (quick tier at seeds 1-3 gives app 95, proof ~270, upd ~275, rw ~900, seq ~180, rwx ~62; the counts follow from
+# the flags by construction): a generator that silently emits (almost) nothing of a kind is a broken obligation
+FLOORS = {"app": 60, "proof": 150, "upd": 150, "rw": 500, "seq": 100, "rwx": 30}
+
+
+def evaluate(ck, recs, floors=False):
+    if floors:
+        for k, fl in sorted(FLOORS.items()):
+            n = sum(1 for r in recs if r.get("k") == k)
+            ck.obligations += 1
+            if n >= fl:
+                ck.discharged += 1
+            else:
+                ck.fail_obligation("case-floor:" + k, "only %d cases of kind %s (floor %d): a generator produced (almost) nothing" % (n, k, fl))
     broken = [r for r in recs if (r.get("panic") or "").startswith(("setup:", "Append:", "CalculateRoot:", "predmut:"))]
     recs = [r for r in recs if r not in broken]
     for r in broken:
@@ -188,6 +202,9 @@ def run_capture(ck, binp, args, out_name="cases.jsonl"):
     """run the harness; if the process dies (panic in a goroutine of the code under test) report the pending case concretely"""
     import os
     n_before = len(ck.failures)
+    stale = os.path.join(ck.work, out_name + ".pending")
+    if os.path.exists(stale):
+        os.remove(stale)  # left by an earlier crashed run: must not be reported as the input of THIS run
     recs = ck.run_harness(binp, args, out_name=out_name)
     if recs is None:
         pend = os.path.join(ck.work, out_name + ".pending")
@@ -227,7 +244,7 @@ def run(ck):
     if main is None:
         return
     recs = recs + main
-    evaluate(ck, recs)
+    evaluate(ck, recs, floors=True)
     for k in ("app", "proof", "upd", "rw"):
         xs = [x for x in recs if x["k"] == k and x.get("n", 0) >= 3]
         if xs:
